@@ -74,6 +74,7 @@ Definition reg_apply (k : str) (r : option mentry) (o : op) : option mentry :=
   match o with
   | OPut i k' v => if str_eqb k k' then reg_put v (opid_ts i) r else r
   | ORemove i k' => if str_eqb k k' then reg_rm (opid_ts i) r else r
+  | OSnap _ => None          (* the snapshot operation replaces the map by its (empty) body *)
   | _ => r
   end.
 
@@ -105,9 +106,10 @@ Qed.
 (* ---------- commutation on one register ---------- *)
 Definition reg_bounded (r : option mentry) : Prop := match r with Some e => ts_bounded (m_t e) | None => True end.
 Definition op_bounded (o : op) : Prop := ts_bounded (op_ts o).
-(* an operation is ready on a register when a remove finds the key *)
+(* an operation is ready on a register when a remove finds the key; the snapshot operation is the first of a log
+   and is never delivered after another operation *)
 Definition reg_ready (k : str) (r : option mentry) (o : op) : Prop :=
-  op_bounded o /\ match o with ORemove _ k' => k' = k -> r <> None | _ => True end.
+  op_bounded o /\ match o with ORemove _ k' => k' = k -> r <> None | OSnap _ => False | _ => True end.
 
 Lemma rmax_comm o a b :
   ts_bounded (m_t o) -> ts_bounded (m_t a) -> ts_bounded (m_t b) ->
@@ -131,21 +133,24 @@ Proof. unfold rmax. destruct (ts_lt _ _); auto. Qed.
 
 Lemma reg_apply_bounded k r o : reg_bounded r -> op_bounded o -> reg_bounded (reg_apply k r o).
 Proof.
-  intros Hr Ho. destruct o; cbn; try exact Hr; destruct (str_eqb k k0); try exact Hr;
+  intros Hr Ho. destruct o; cbn; try exact Hr; try exact I; destruct (str_eqb k k0); try exact Hr;
     destruct r as [e|]; cbn in *; try exact I; try apply rmax_bounded; auto.
 Qed.
 
-Lemma reg_apply_keeps k r o : r <> None -> reg_apply k r o <> None.
+Lemma reg_apply_keeps k r o : is_snap o = false -> r <> None -> reg_apply k r o <> None.
 Proof.
-  intros H. destruct o; cbn; try exact H; destruct (str_eqb k k0); try exact H;
+  intros Hs H. destruct o; cbn; try exact H; try discriminate Hs; destruct (str_eqb k k0); try exact H;
     destruct r; try congruence; cbn; discriminate.
 Qed.
 
 Lemma reg_ready_mono k r a b : reg_ready k r a -> reg_ready k r b -> reg_ready k (reg_apply k r a) b.
 Proof.
-  intros _ [Hb1 Hb2]. split; [exact Hb1|]. destruct b; try exact I.
-  intros E. apply reg_apply_keeps. auto.
+  intros [_ Ha2] [Hb1 Hb2]. split; [exact Hb1|]. destruct b; try exact I; try exact Hb2.
+  intros E. apply reg_apply_keeps; [destruct a; try reflexivity; contradiction|auto].
 Qed.
+
+Lemma reg_ready_not_snap k r o : reg_ready k r o -> is_snap o = false.
+Proof. intros [_ H]. destruct o; try reflexivity. contradiction. Qed.
 
 Lemma reg_comm k r a b :
   reg_bounded r -> key_of (op_ts a) <> key_of (op_ts b) -> reg_ready k r a -> reg_ready k r b ->
@@ -153,6 +158,7 @@ Lemma reg_comm k r a b :
 Proof.
   intros Hr Hne [Ha Ra] [Hb Rb].
   destruct a as [| | |ia ka va|ia ka| | | | | | | |], b as [| | |ib kb vb|ib kb| | | | | | | |]; cbn [reg_apply]; try reflexivity;
+    try (exfalso; exact Ra); try (exfalso; exact Rb);
     destruct (str_eqb k ka) eqn:Ea; destruct (str_eqb k kb) eqn:Eb; try reflexivity;
     try (apply str_eqb_eq in Ea); try (apply str_eqb_eq in Eb); subst;
     destruct r as [o|]; cbn [reg_put reg_rm];
